@@ -330,7 +330,9 @@ theorem step_cov {b b' : Builder} (t : Token) (hok : BuilderOk b) (h : BuilderCo
       unfold Builder.prefix at hr
       split at hr
       · cases hr
-      · dsimp only at hr
+      · split at hr
+        · cases hr
+        dsimp only at hr
         split at hr
         · cases hr
         · split at hr
@@ -411,9 +413,12 @@ theorem step_cov {b b' : Builder} (t : Token) (hok : BuilderOk b) (h : BuilderCo
   | comment t sp =>
     simp only [Builder.step, Builder.comment, Step.ok.injEq] at hr
     subst hr
-    exact addLeaf_cov h (.comment t.text) _ rfl (keysSub_add _ _ _) (hasKey_add_self _ _ _)
+    exact addLeaf_cov h (.comment (normalizeLineEnds t.text)) _ rfl (keysSub_add _ _ _) (hasKey_add_self _ _ _)
   | pi target content sp =>
-    simp only [Builder.step, Builder.processingInstruction, Step.ok.injEq] at hr
+    simp only [Builder.step] at hr
+    split at hr
+    · cases hr
+    simp only [Builder.processingInstruction, Step.ok.injEq] at hr
     subst hr
     refine addLeaf_cov (b := { b with env := (b.env.internName target.text Env.noNamespace).1 })
       (builderCov_congr h rfl rfl rfl) _ _ rfl ?_ ?_
